@@ -59,6 +59,12 @@ DepBounds == {"bare", "inline", "where", "impl"}
 WherePredKinds == {"none", "path", "assoc", "tuple", "hrtb", "life"}
 GenCases == { [kind |-> "gen", mode |-> m, dbound |-> d, pred |-> w] : m \in {"fn", "mod", "impl"}, d \in DepBounds, w \in WherePredKinds }
 
+\* (g) the trait path of an entraited impl block (input.rs parse_impl): plain, with a module prefix, with generic arguments.
+\* Impl blocks have no support for generics: the generated header appends `<EntraitT>` to the path, so arguments on it are
+\* rejected (since a "fix:" commit; the header `impl<..> TI<u8> <EntraitT> for X` used to be emitted - tokens that do not parse)
+ImplPathCases == { [kind |-> "implpath", path |-> p] : p \in {"plain", "prefixed", "generic"} }
+OutcomeImplPath(c) == IF c.path = "generic" THEN [outcome |-> "error", class |-> "impl-trait-path-arguments"] ELSE [outcome |-> "ok", class |-> ""]
+
 \* ------------------------------------------------------------------------
 \* Level 2: the outcome of each case
 \* ------------------------------------------------------------------------
@@ -86,6 +92,7 @@ OutcomePat(c) == IF Final(<<c.sym>>, c.f).panic THEN [outcome |-> "panic", class
 Outcome(c) == CASE c.kind = "attr" -> OutcomeAttr(c) [] c.kind = "item" -> OutcomeItem(c)
                 [] c.kind = "deps" -> OutcomeDeps(c) [] c.kind = "trait" -> OutcomeTrait(c) [] c.kind = "pat" -> OutcomePat(c)
                 [] c.kind = "gen" -> Ok        \* generics collection has no error path
+                [] c.kind = "implpath" -> OutcomeImplPath(c)
 
 \* documented misuses: single faults injected into valid invocations (Level 1's `fault`)
 Fault(c) ==
@@ -110,7 +117,7 @@ Fault(c) ==
     [] OTHER -> ""
 OptName(c) == IF c.kind = "attr" /\ Len(c.attr.opts) >= 1 THEN c.attr.opts[1].k ELSE ""
 
-AllCases == AttrCasesOK \cup ItemCases \cup DepsCasesOK \cup TraitCases \cup PatCasesOK \cup GenCases
+AllCases == AttrCasesOK \cup ItemCases \cup DepsCasesOK \cup TraitCases \cup PatCasesOK \cup GenCases \cup ImplPathCases
 
 \* ---- the machine: each case is driven to its outcome in named steps
 VARIABLES c, pc, out
@@ -118,14 +125,15 @@ vars == <<c, pc, out>>
 Init == c \in AllCases /\ pc = "classify" /\ out = Ok
 ClassifyItem == /\ pc = "classify"
                 /\ IF c.kind = "item" THEN out' = OutcomeItem(c) /\ pc' = "done"
-                   ELSE out' = out /\ pc' = (CASE c.kind = "attr" -> "attr" [] c.kind = "deps" -> "analyze" [] c.kind = "pat" -> "params" [] c.kind = "gen" -> "generics" [] OTHER -> "trait")
+                   ELSE out' = out /\ pc' = (CASE c.kind = "attr" -> "attr" [] c.kind = "deps" -> "analyze" [] c.kind = "pat" -> "params" [] c.kind = "gen" -> "generics" [] c.kind = "implpath" -> "implheader" [] OTHER -> "trait")
                 /\ UNCHANGED c
 ParseAttr    == pc = "attr" /\ out' = OutcomeAttr(c) /\ pc' = "done" /\ UNCHANGED c
 AnalyzeFnDeps == pc = "analyze" /\ out' = OutcomeDeps(c) /\ pc' = "done" /\ UNCHANGED c
 TraitChecks  == pc = "trait" /\ out' = OutcomeTrait(c) /\ pc' = "done" /\ UNCHANGED c
 FixParamIdents == pc = "params" /\ out' = OutcomePat(c) /\ pc' = "done" /\ UNCHANGED c
 CollectGenerics == pc = "generics" /\ out' = Ok /\ pc' = "done" /\ UNCHANGED c
-Next == ClassifyItem \/ ParseAttr \/ AnalyzeFnDeps \/ TraitChecks \/ FixParamIdents \/ CollectGenerics
+ParseImplHeader == pc = "implheader" /\ out' = OutcomeImplPath(c) /\ pc' = "done" /\ UNCHANGED c
+Next == ClassifyItem \/ ParseAttr \/ AnalyzeFnDeps \/ TraitChecks \/ FixParamIdents \/ CollectGenerics \/ ParseImplHeader
 Spec == Init /\ [][Next]_vars
 
 NeverPanics == out.outcome # "panic"
